@@ -1,5 +1,5 @@
 """Property id -> check function."""
-from . import props_act, props_cache, props_det, props_filter, props_glr, props_imp, props_layout, props_lex, props_life, props_lr, props_prec, props_str, props_sugar, props_tbl
+from . import props_act, props_cache, props_det, props_filter, props_glr, props_imp, props_layout, props_lex, props_life, props_lr, props_prec, props_rec, props_str, props_sugar, props_tbl
 
 CHECKS = {
     "C01": props_glr.c01,
@@ -13,6 +13,7 @@ CHECKS = {
     "C10": props_lr.c10,
     "C17": props_glr.c17,
     "C09": props_act.c09,
+    "C11": props_rec.c11,
     "C12": props_cache.c12,
     "C13": props_sugar.c13,
     "C14": props_layout.c14,
